@@ -15,7 +15,7 @@ levels:
 import z3
 import time
 from .. import core
-from ..gen import core1, f1, f2, f3, f4, f4r
+from ..gen import core1, f1, f2, f3, f4, f4r, f5
 from ..nslref import joint
 from . import famcheck
 
@@ -264,6 +264,8 @@ def run_instance(inst):
         except joint.Rejected as e:
             if "may-reject" not in inst.get("tags", []):
                 res["errors"].append(f"family member rejected (optimize={optimize}): {e}")
+            else:
+                res["nontrivial"] = True
             continue
         counters["modules"] += 1
         counters["functions"] += st["functions"]
@@ -314,6 +316,11 @@ def family(tier, seed):
     items += f1.generate(seed, 200 if tier == "quick" else 3000, depth=3, nmax=3)
     items += f3.random_calls(seed, 60 if tier == "quick" else 800)
     items += f4r.generate(seed, 100 if tier == "quick" else 1000)
+    # calls with every argument / parameter type pair, wrong argument counts, unknown callees: whatever of this the front end lets
+    # through must still name an existing function with the right number of arguments
+    for it in f5.calls_and_returns() + f5.statements():
+        it.tags.add("may-reject")
+        items.append(it)
     return items
 
 
